@@ -190,4 +190,63 @@ func c17Post(r *R) {
 		checked++
 	}
 	r.CountN("order-permutations-checked", checked)
+	// Within one generation the logical clock decides which state is the newer one, whatever the wall-clock stamps say
+	// (the stamping node's clock may lag). No history of this code base advances the logical clock without the
+	// generation, so such a pair is derived here from a gossiped view: one member's state is advanced by one logical
+	// tick and stamped earlier than, at, or later than the state it succeeds (added after seeded wave 10).
+	derived := 0
+	for t := 0; t < 40; t++ {
+		i, j := r.Choose(len(pool)), r.Choose(len(pool))
+		o := opts[i]
+		var ids []string
+		for id, m := range pool[i].Members {
+			if m != nil && m.LogicalClock != 0 {
+				ids = append(ids, id)
+			}
+		}
+		if len(ids) == 0 {
+			continue
+		}
+		sort.Strings(ids)
+		id := ids[r.Choose(len(ids))]
+		adv := pool[i].Snapshot()
+		m := adv.Members[id]
+		m.LogicalClock++
+		stamp := []string{"equal", "earlier", "later"}[r.Choose(3)]
+		d := int64(1+r.Choose(5000)) * int64(time.Millisecond)
+		switch stamp {
+		case "earlier":
+			m.Timestamp -= d
+		case "later":
+			m.Timestamp += d
+		}
+		want := memberKey(m)
+		if other := pool[j].Members[id]; other != nil && (uint64(other.Generation) > want[0] || (uint64(other.Generation) == want[0] && other.LogicalClock > want[1])) {
+			want = memberKey(other)
+		}
+		x := pool[i].Snapshot()
+		x.MergeFromWithOptions(adv.Snapshot(), o)
+		if got := memberKey(x.Members[id]); got != memberKey(m) {
+			r.Fail("C17/merge-kept-older-logical-clock stamp="+stamp, "member %s is held at (generation %d, logical clock %d); a view holding it at the same generation and logical clock %d (time stamp %s) is merged in, and the result holds (generation %d, logical clock %d): the newer state was not adopted", id, m.Generation, m.LogicalClock-1, m.LogicalClock, stamp, got[0], got[1])
+			return
+		}
+		y := adv.Snapshot()
+		y.MergeFromWithOptions(pool[i].Snapshot(), o)
+		if got := memberKey(y.Members[id]); got != memberKey(m) {
+			r.Fail("C17/merge-replaced-by-older-logical-clock stamp="+stamp, "member %s is held at (generation %d, logical clock %d); merging a view that holds it at logical clock %d (time stamp of the newer state: %s) leaves (generation %d, logical clock %d)", id, m.Generation, m.LogicalClock, m.LogicalClock-1, stamp, got[0], got[1])
+			return
+		}
+		views := []*cluster.ClusterView{pool[i], adv, pool[j]}
+		for _, p := range [][]int{{0, 1, 2}, {0, 2, 1}, {1, 0, 2}, {1, 2, 0}, {2, 0, 1}, {2, 1, 0}} {
+			acc := views[p[0]].Snapshot()
+			acc.MergeFromWithOptions(views[p[1]].Snapshot(), o)
+			acc.MergeFromWithOptions(views[p[2]].Snapshot(), o)
+			if got := memberKey(acc.Members[id]); got != want {
+				r.Fail("C17/merge-order-sensitive-within-generation stamp="+stamp, "views V, V' (= V with member %s advanced by one logical tick, time stamp %s) and W merged in order %v leave the member at (generation %d, logical clock %d); the newest of the three is (generation %d, logical clock %d)", id, stamp, p, got[0], got[1], want[0], want[1])
+				return
+			}
+		}
+		derived++
+	}
+	r.CountN("derived-same-generation-pairs-checked", derived)
 }
